@@ -257,6 +257,30 @@ def in_documented_grammar(line):
     """the generator's documented grammar: no glued **, no empty class range, ASCII, no tabs ..."""
     if b"\t" in line or b"***" in line or b"//" in line:
         return False
+    # classes: no backslash inside (git quotes there, globset does not), no reversed range
+    i = 0
+    while i < len(line):
+        c = line[i:i + 1]
+        if c == b"\\":
+            i += 2
+            continue
+        if c == b"[":
+            j = i + 1
+            if line[j:j + 1] in (b"!", b"^"):
+                j += 1
+            if line[j:j + 1] == b"]":
+                j += 1
+            k = line.find(b"]", j)
+            if k >= 0:
+                body = line[i + 1:k]
+                if b"\\" in body:
+                    return False
+                for t in range(len(body) - 2):
+                    if body[t + 1:t + 2] == b"-" and body[t] > body[t + 2]:
+                        return False
+                i = k + 1
+                continue
+        i += 1
     s = line
     # ** must be a whole component
     parts = s.lstrip(b"!").split(b"/")
